@@ -181,3 +181,55 @@ def allSettled (l : Ledger) : Bool := l.entries.all fun e => match e.stage with
   | _ => false
 
 end Ldk.Onchain
+
+/-! ### Fee-bump trajectory of ONE claim (C07; appended — nothing above is changed)
+
+    `OnchainTxHandler::generate_claim` (chain/onchaintx.rs) is called for a pending claim when it is
+    first issued (`feerate_previous = 0`), whenever its height timer fires (`ForceBump`), on
+    `rebroadcast_pending_claims` (`HighestOfPreviousOrNew`) and on `signer_unblocked`
+    (`RetryPrevious`); every caller stores the feerate it answers with `set_feerate`.  The fee
+    estimator may answer ANYTHING each time.
+    * a claim that takes its fee from external inputs (anchor channels: the commitment bump
+      `ClaimEvent::BumpCommitment`, holder HTLC claims `ClaimEvent::BumpHTLC`) gets its target from
+      `compute_package_feerate` (translated: `Pkg.computePackageFeerate`);
+    * a self-funded malleable claim gets its feerate from `compute_package_output` (translated:
+      `Pkg.computePackageOutput`); when that answers `None`, `generate_claim` answers `None` and the
+      stored feerate is left alone. -/
+namespace Ldk.Onchain
+open Ldk Ldk.Pkg
+
+/-- the successive TARGET feerates (`BumpTransactionEvent::ChannelClose::package_target_feerate_sat_per_1000_weight`,
+    `BumpTransactionEvent::HTLCResolution::target_feerate_sat_per_1000_weight`) of an externally
+    funded claim whose stored feerate is `prev`, over a trajectory of (strategy, raw estimate) calls -/
+def extTargets (prev : Nat) : List (FeerateStrategy × Nat) → List Nat
+  | [] => []
+  | (s, est) :: rest => computePackageFeerate prev s est :: extTargets (computePackageFeerate prev s est) rest
+
+/-- one re-issue of a self-funded claim: what is being spent (the package may have been split or
+    merged since the last issue), the predicted weight, the dust limit of the destination script,
+    the strategy and the raw estimate -/
+structure Reissue where
+  amount : Nat
+  weight : Nat
+  dust : Nat
+  strategy : FeerateStrategy
+  est : Nat
+  deriving Repr
+
+/-- the successive feerates of the transactions a self-funded claim is (re-)issued with -/
+def ownFeerates (prev : Nat) : List Reissue → List Nat
+  | [] => []
+  | r :: rest =>
+    match computePackageOutput r.amount r.weight r.dust prev r.strategy r.est with
+    | some (_, rate) => rate :: ownFeerates rate rest
+    | none => ownFeerates prev rest
+
+/-- the u32 product `feerate_estimate * 5` of `compute_package_feerate` IS evaluated (a `ForceBump` of a
+    claim issued before, the bounded estimate not above the previous feerate) and does not fit a u32
+    (estimate > 858 993 459 sat/kW): debug builds panic there, release builds wrap.  Outside this
+    region the Nat rendering `Pkg.computePackageFeerate` is exact.  Used by the driver to answer `ovf`. -/
+def packageFeerateOverflows (prev : Nat) (s : FeerateStrategy) (est : Nat) : Bool :=
+  s == .forceBump && prev != 0 && decide (boundedSatPer1000Weight est ≤ Nat.min prev U32_MAX) &&
+    decide (U32_MAX < 5 * boundedSatPer1000Weight est)
+
+end Ldk.Onchain
